@@ -20,7 +20,9 @@ EXTENDS Naturals, Integers, Sequences, FiniteSets, TLC
 
 CONSTANTS CaseSpace,      \* set of [cid, expr, env] records explored by Init
           SwEagerBool,    \* F10: and/or and comparison chains evaluate all operands before combining
-          SwOrSeedTrue    \* F9: `or` is folded starting from True
+          SwOrSeedTrue,   \* F9: `or` is folded starting from True
+          SwAllFailLeaks  \* F19: the counterexample object of a failed all(<generator>) is handed to the enclosing
+                          \*      expression instead of the value False
 
 VARIABLES case
 evars == <<case>>
@@ -32,9 +34,13 @@ VBool(b)  == [t |-> "bool", n |-> IF b THEN 1 ELSE 0, s |-> <<>>]
 VNone     == [t |-> "none", n |-> 0, s |-> <<>>]
 VList(s)  == [t |-> "list", n |-> 0, s |-> s]
 VObj(n)   == [t |-> "obj", n |-> n, s |-> <<>>]          \* an object whose attribute v is the integer n
+NoneElem  == 0 - 9                                        \* a list element that is None
+VElem(n)  == IF n = NoneElem THEN VNone ELSE VInt(n)
+\* the first falsifying element of a failed all(<generator>): shown as "was False, e.g., with e = <element>"
+VAllFail(n) == [t |-> "allfail", n |-> n, s |-> <<>>]
 VNumeric(v) == v.t \in {"int", "bool"}
 Truthy(v) == CASE v.t = "int" -> v.n # 0 [] v.t = "bool" -> v.n = 1 [] v.t = "none" -> FALSE
-               [] v.t = "list" -> v.s # <<>> [] v.t = "obj" -> TRUE
+               [] v.t = "list" -> v.s # <<>> [] v.t = "obj" -> TRUE [] v.t = "allfail" -> FALSE
 \* Python equality
 PyEq(a, b) == IF VNumeric(a) /\ VNumeric(b) THEN a.n = b.n
               ELSE IF a.t = "list" /\ b.t = "list" THEN a.s = b.s
@@ -43,7 +49,7 @@ PyEq(a, b) == IF VNumeric(a) /\ VNumeric(b) THEN a.n = b.n
               ELSE FALSE
 
 Arity(k) == CASE k \in {"int", "none", "true", "false", "name"} -> 0
-              [] k \in {"not", "neg", "ident", "len", "first", "attr", "isnone"} -> 1
+              [] k \in {"not", "neg", "ident", "len", "first", "attr", "isnone", "all_gt", "all_pos"} -> 1
               [] k \in {"add", "floordiv", "and", "or", "lt", "eq", "in"} -> 2
               [] k \in {"ifexp", "lt2", "and3", "or3"} -> 3
 
@@ -71,20 +77,38 @@ Positions(p) ==                       \* all node positions of the subtree at p
 -----------------------------------------------------------------------------
 (* Primitive operations shared by Python and by the re-evaluator (both run  *)
 (* the same Python operators on the operand values).  Result: [st, v].     *)
+
 Ok(v)   == [st |-> "ok", v |-> v]
 Exc(nm) == [st |-> "exc", v |-> [t |-> "exc", n |-> 0, s |-> <<>>]]
+\* comparison of two lists as Python does it: the first position where the elements differ decides; comparing
+\* None with a number there is a TypeError
+FirstDiff(s, r) == IF \E i \in 1..Len(s) : i <= Len(r) /\ s[i] # r[i]
+                   THEN CHOOSE i \in 1..Len(s) : i <= Len(r) /\ s[i] # r[i] /\ \A j \in 1..(i - 1) : s[j] = r[j]
+                   ELSE 0
+ListLess(s, r) == LET i == FirstDiff(s, r) IN
+                  IF i = 0 THEN Ok(VBool(Len(s) < Len(r)))
+                  ELSE IF s[i] = NoneElem \/ r[i] = NoneElem THEN Exc("TypeError")
+                  ELSE Ok(VBool(s[i] < r[i]))
 
-\* lexicographic order on integer sequences
-LexLess(s, r) == \E i \in 1..(Len(r)) :
-                   /\ \A j \in 1..(i - 1) : j <= Len(s) /\ s[j] = r[j]
-                   /\ (i > Len(s) \/ s[i] < r[i])
-
+\* all(<elt> for e in xs <filters>): [st, v] where v is TRUE or the first falsifying element
+\*   all_gt  : all(e > K for e in xs)
+\*   all_pos : all(10 // e > K for e in xs if e is not None if e > 0)
+RECURSIVE AllWalk(_, _, _, _)
+AllWalk(k, K, xs, i) ==
+  IF i > Len(xs) THEN Ok(VBool(TRUE))
+  ELSE LET e == xs[i] IN
+       IF k = "all_gt"
+         THEN IF e = NoneElem THEN Exc("TypeError")
+              ELSE IF e > K THEN AllWalk(k, K, xs, i + 1) ELSE Ok(VAllFail(e))
+         ELSE IF e = NoneElem \/ ~(e > 0) THEN AllWalk(k, K, xs, i + 1)          \* filtered out
+              ELSE IF (10 \div e) > K THEN AllWalk(k, K, xs, i + 1) ELSE Ok(VAllFail(e))
 Unary(k, v) ==
   CASE k = "not" -> Ok(VBool(~Truthy(v)))
     [] k = "neg" -> IF VNumeric(v) THEN Ok(VInt(0 - v.n)) ELSE Exc("TypeError")
     [] k = "ident" -> Ok(v)
     [] k = "len" -> IF v.t = "list" THEN Ok(VInt(Len(v.s))) ELSE Exc("TypeError")
-    [] k = "first" -> IF v.t = "list" THEN (IF v.s = <<>> THEN Exc("IndexError") ELSE Ok(VInt(v.s[1]))) ELSE Exc("TypeError")
+    [] k = "first" -> IF v.t = "list" THEN (IF v.s = <<>> THEN Exc("IndexError") ELSE Ok(VElem(v.s[1]))) ELSE Exc("TypeError")
+    [] k \in {"all_gt", "all_pos"} -> IF v.t = "list" THEN AllWalk(k, 0, v.s, 1) ELSE Exc("TypeError")
     [] k = "attr" -> IF v.t = "obj" THEN Ok(VInt(v.n)) ELSE Exc("AttributeError")
     [] k = "isnone" -> Ok(VBool(v.t = "none"))
 Binary(k, a, b) ==
@@ -93,9 +117,12 @@ Binary(k, a, b) ==
     [] k = "floordiv" -> IF VNumeric(a) /\ VNumeric(b) THEN (IF b.n = 0 THEN Exc("ZeroDivisionError") ELSE Ok(VInt(a.n \div b.n)))
                          ELSE Exc("TypeError")
     [] k = "lt" -> IF VNumeric(a) /\ VNumeric(b) THEN Ok(VBool(a.n < b.n))
-                   ELSE IF a.t = "list" /\ b.t = "list" THEN Ok(VBool(LexLess(a.s, b.s))) ELSE Exc("TypeError")
+                   ELSE IF a.t = "list" /\ b.t = "list" THEN ListLess(a.s, b.s) ELSE Exc("TypeError")
     [] k = "eq" -> Ok(VBool(PyEq(a, b)))
-    [] k = "in" -> IF b.t = "list" THEN Ok(VBool(\E i \in DOMAIN b.s : PyEq(a, VInt(b.s[i])))) ELSE Exc("TypeError")
+    [] k = "in" -> IF b.t = "list" THEN Ok(VBool(\E i \in DOMAIN b.s : PyEq(a, VElem(b.s[i])))) ELSE Exc("TypeError")
+\* Python itself sees a failed quantifier simply as False
+PyView(v) == IF v.t = "allfail" THEN VBool(FALSE) ELSE v
+
 Leaf(p) ==
   LET nd == Expr[p] IN
   CASE nd.k = "int" -> VInt(nd.a) [] nd.k = "none" -> VNone [] nd.k = "true" -> VBool(TRUE)
@@ -111,7 +138,7 @@ Eval(p) ==
   ELSE IF Arity(k) = 1 THEN
     LET a == Eval(Child1(p)) IN
     IF a.st # "ok" THEN [st |-> a.st, v |-> a.v, ev |-> a.ev \cup {p}]
-    ELSE LET r == Unary(k, a.v) IN [st |-> r.st, v |-> r.v, ev |-> a.ev \cup {p}]
+    ELSE LET r == Unary(k, a.v) IN [st |-> r.st, v |-> PyView(r.v), ev |-> a.ev \cup {p}]
   ELSE IF k \in {"and", "or"} THEN
     LET a == Eval(Child1(p)) IN
     IF a.st # "ok" THEN [st |-> a.st, v |-> a.v, ev |-> a.ev \cup {p}]
@@ -168,7 +195,9 @@ Rec(p) ==
     LET a == Rec(Child1(p)) IN
     IF a.st # "ok" THEN [st |-> a.st, v |-> a.v, tc |-> a.tc \cup {p}, val |-> a.val]
     ELSE LET r == Unary(k, a.v) IN
-         IF r.st = "ok" THEN [st |-> "ok", v |-> r.v, tc |-> a.tc \cup {p}, val |-> a.val \cup {<<p, r.v>>}]
+         \* (the counterexample of a failed quantifier is recorded for display; the enclosing expression gets False)
+         IF r.st = "ok" THEN [st |-> "ok", v |-> IF SwAllFailLeaks THEN r.v ELSE PyView(r.v), tc |-> a.tc \cup {p},
+                              val |-> a.val \cup {<<p, r.v>>}]
          ELSE [st |-> "exc", v |-> r.v, tc |-> a.tc \cup {p}, val |-> a.val]
   ELSE IF k \in {"and", "or", "and3", "or3"} THEN RecBool(p)
   ELSE IF k = "ifexp" THEN
@@ -252,7 +281,7 @@ RecChain(p) ==
 -----------------------------------------------------------------------------
 (* What the message shows: names, attributes, calls and subscripts that got *)
 (* a recorded value (icontract/_represent.py).                              *)
-ShownKind(k) == k \in {"name", "ident", "len", "first", "attr"}
+ShownKind(k) == k \in {"name", "ident", "len", "first", "attr", "all_gt", "all_pos"}
 PyRes  == Eval(1)
 RecRes == Rec(1)
 Shown  == {pv \in RecRes.val : ShownKind(Expr[pv[1]].k)}
@@ -270,7 +299,13 @@ RecomputeWithinEvaluated == Violated => RecRes.tc \subseteq PyRes.ev
 ViolationSurfaces == Violated => RecRes.st # "exc"
 (* ---- C06 ---- *)
 \* every value shown is the value Python computes for that sub-expression
-ShownSound == Violated => \A pv \in Shown : pv[1] \in PyRes.ev /\ pv[2] = EvalAt(pv[1])
+ShownSound == Violated => \A pv \in Shown : pv[1] \in PyRes.ev /\ PyView(pv[2]) = EvalAt(pv[1])
+\* for a failing all(<generator>) the reported example is the first falsifying element
+AllCounterexample ==
+  Violated => \A pv \in Shown : (pv[2].t = "allfail" /\ Expr[pv[1]].k \in {"all_gt", "all_pos"}) =>
+     LET xs == Eval(Child1(pv[1])).v.s
+         i == CHOOSE j \in DOMAIN xs : xs[j] = pv[2].n /\ \A h \in 1..(j - 1) : AllWalk(Expr[pv[1]].k, 0, SubSeq(xs, h, h), 1).v.t # "allfail"
+     IN AllWalk(Expr[pv[1]].k, 0, SubSeq(xs, i, i), 1).v.t = "allfail"
 \* every name / attribute / call / subscript Python evaluated is shown (claimed when no name is bound to None)
 ShownComplete == (Violated /\ NoneFree) => \A p \in PyRes.ev : ShownKind(Expr[p].k) => \E pv \in Shown : pv[1] = p
 EInit == case \in CaseSpace
